@@ -350,6 +350,43 @@ fn main() {
 		"version09" => small::cmd_version09(&a),
 		"rollbacks" => small::cmd_rollbacks(&a),
 		"sjis" => small::cmd_sjis(&a),
+		"replay" => {
+			// re-executes the generic probes on the bytes stored in a replay file and prints what the code does now
+			let rec: serde_json::Value = serde_json::from_slice(&std::fs::read(a.req("file")).unwrap()).unwrap();
+			println!("recorded violation: {}", rec.get("viol").map(|v| v.to_string()).unwrap_or_default());
+			let hex = rec.get("bytes_hex").or_else(|| rec.get("slp_hex")).and_then(|v| v.as_str()).unwrap_or("");
+			if hex.is_empty() {
+				println!("(this replay file carries no input bytes: {})", rec.as_object().map(|o| o.keys().cloned().collect::<Vec<_>>().join(", ")).unwrap_or_default());
+				return;
+			}
+			let bytes = util::unhex(hex);
+			println!("input: {} bytes", bytes.len());
+			for (skip, hash) in [(false, false), (false, true), (true, false), (true, true)] {
+				let o = real::read_slp(&bytes, skip, hash);
+				println!("slippi::read skip={} hash={}: {} {}", skip, hash, o.kind(), o.detail());
+				if let util::Outcome::Ok(g) = o {
+					println!("  frames={} end={} metadata={} gecko={} hash={:?} quirks={:?}", g.frames.id.len(), g.end.is_some(), g.metadata.is_some(), g.gecko_codes.is_some(), g.hash, g.quirks);
+					let w = real::write_slp(&g);
+					match &w {
+						util::Outcome::Ok(w) => println!("  slippi::write: ok, {} bytes, first difference from the input: {:?}", w.len(), util::first_diff(w, &bytes)),
+						o => println!("  slippi::write: {} {}", o.kind(), o.detail()),
+					}
+					for comp in real::Comp::all() {
+						if skip {
+							break;
+						}
+						let g2 = real::read_slp(&bytes, false, hash).ok().unwrap();
+						match real::write_slpp(g2, comp) {
+							util::Outcome::Ok(arch) => match real::read_slpp(&arch, false) {
+								util::Outcome::Ok(g3) => println!("  .slpp ({}) {} bytes: read back ok; re-serialised differs at {:?}", comp.name(), arch.len(), real::write_slp(&g3).ok().map(|w| util::first_diff(&w, &bytes))),
+								o => println!("  .slpp ({}) read back: {} {}", comp.name(), o.kind(), o.detail()),
+							},
+							o => println!("  .slpp ({}) write: {} {}", comp.name(), o.kind(), o.detail()),
+						}
+					}
+				}
+			}
+		}
 		"dump-slpp" => {
 			let b = std::fs::read(a.req("file")).unwrap();
 			let g = real::read_slp(&b, false, true).ok().unwrap();
